@@ -1,6 +1,9 @@
 pub mod common;
 
 pub mod c01;
+pub mod c02;
+pub mod c03;
+pub mod c04;
 pub mod c05;
 pub mod c07;
 pub mod c08;
@@ -12,6 +15,9 @@ use crate::util::Ctx;
 pub fn dispatch(ctx: &mut Ctx) -> bool {
     match ctx.prop.as_str() {
         "C01" => c01::run(ctx),
+        "C02" => c02::run(ctx),
+        "C03" => c03::run(ctx),
+        "C04" => c04::run(ctx),
         "C05" => c05::run(ctx),
         "C07" => c07::run(ctx),
         "C08" => c08::run(ctx),
